@@ -106,18 +106,29 @@ pub fn gen_program(r: &mut Rng, cfg: &mut Rng, big: bool) -> (Vec<Fact>, Vec<dm:
 impl Prop for C05 {
     type Case = DlCase;
     fn id(&self) -> &'static str { "C05" }
-    fn expected_counters(&self) -> Vec<&'static str> { vec!["fault.fact_and_rule_order_permuted", "fault.pool_split_into_several_jobs", "fault.jobs_run_out_of_index_order", "probe.nested_parallel_call", "probe.program_derives_facts", "probe.rule_with_3plus_premises", "probe.over_1000_facts_hash_join_chunks", "probe.negative_stratum"] }
+    fn expected_counters(&self) -> Vec<&'static str> { vec!["fault.fact_and_rule_order_permuted", "fault.pool_split_into_several_jobs", "fault.jobs_run_out_of_index_order", "probe.nested_parallel_call", "probe.program_derives_facts", "probe.rule_with_3plus_premises", "probe.over_1000_facts_hash_join_chunks", "probe.negative_stratum", "probe.derivation_deeper_than_128_rounds"] }
     fn budget(&self, tier: Tier) -> Budget { match tier { Tier::Quick => Budget { runs: 4000, wall_s: 60, recheck: 30 }, Tier::Thorough => Budget { runs: 150_000, wall_s: 1000, recheck: 100 } } }
     fn hash_seed(&self, c: &DlCase) -> u64 { c.hash_seed }
     fn gen(&self, seed: u64, _i: u64, tier: Tier) -> DlCase {
         let mut r = Rng::sub(seed, "workload"); let mut cfg = Rng::sub(seed, "swarm"); let mut pr = Rng::sub(seed, "perturb");
         let big = cfg.chance(1, 30);
-        let (facts, rules) = gen_program(&mut r, &mut cfg, big);
+        let deep = !big && cfg.chance(1, 40);
+        let (facts, rules) = if deep {
+            // a derivation deeper than any small random program reaches: single-source reachability along a chain of 100-300 edges
+            // (as many fixpoint rounds as edges), optionally with a second recursive rule that walks the chain backwards
+            let k = *r.pick(&[100usize, 127, 128, 129, 130, 200, 257, 300]);
+            let mut f: Vec<Fact> = (0..k).map(|i| (format!("c{}", i), "edge".to_string(), format!("c{}", i + 1))).collect();
+            f.push(("c0".into(), "reach".into(), "c0".into()));
+            let mut rs = vec![dm::Rule { prem: vec![("?x".into(), "reach".into(), "?y".into()), ("?y".into(), "edge".into(), "?z".into())], neg: vec![], conc: vec![("?x".into(), "reach".into(), "?z".into())], filt: vec![] }];
+            if r.chance(1, 2) { f.push((format!("c{}", k), "back".into(), format!("c{}", k))); rs.push(dm::Rule { prem: vec![("?z".into(), "back".into(), "?y".into()), ("?x".into(), "edge".into(), "?y".into())], neg: vec![], conc: vec![("?z".into(), "back".into(), "?x".into())], filt: vec![] }); }
+            (f, rs)
+        } else { gen_program(&mut r, &mut cfg, big) };
+        let big = big || deep;
         let per = if tier == Tier::Quick { 3 } else { 6 };
         let mut runs = vec![];
         for s in 0..4u8 {
             runs.push(Perturb { strategy: s, pool: 1, rayon_seed: 0, order_seed: 0 });
-            for _ in 1..(if big { if s == 2 { 1 } else { 2 } } else { per }) { runs.push(Perturb { strategy: s, pool: *pr.pick(&[1, 2, 3, 4, 8, 16]), rayon_seed: pr.next(), order_seed: pr.next() }); }
+            for _ in 1..(if big { if s == 2 { 1 } else { 2 } } else { per }) { runs.push(Perturb { strategy: s, pool: *pr.pick(&[1, 2, 3, 4, 8, 16, 16, 70, 200]), rayon_seed: pr.next(), order_seed: pr.next() }); }
         }
         DlCase { hash_seed: Rng::sub(seed, "hash").next(), facts, rules, runs }
     }
@@ -127,6 +138,7 @@ impl Prop for C05 {
         let has_neg = c.rules.iter().any(|r| !r.neg.is_empty());
         let want = if has_neg { dm::stratified_model(&fset, &c.rules) } else { dm::least_model(&fset, &c.rules) };
         ev!(ctx.log, "facts={} rules={} model={} neg={}", fset.len(), c.rules.len(), want.len(), has_neg);
+        if c.facts.iter().filter(|f| f.1 == "edge").count() > 128 && want.iter().filter(|f| f.1 == "reach").count() > 129 { ctx.hit("probe.derivation_deeper_than_128_rounds"); }
         let in_shape = parallel_shape(&c.rules);
         for p in &c.runs {
             if has_neg && p.strategy != 3 { continue; } // only the provenance strategy implements a negative stratum
@@ -195,7 +207,10 @@ impl Prop for C05 {
 // C19 — inconsistency-tolerant answers are those true in every maximal repair, stable from run to run (DESIGN 6.14).
 // The explored source of nondeterminism is the hash seed: `compute_repairs` iterates HashSets.
 #[derive(Serialize, Deserialize, Clone, Debug)]
-pub struct RepCase { pub hash_seeds: Vec<u64>, pub facts: Vec<Fact>, pub constraints: Vec<Vec<Pat>>, pub goal: Pat, pub rules: Vec<dm::Rule> }
+pub struct RepCase { pub hash_seeds: Vec<u64>, pub facts: Vec<Fact>, pub constraints: Vec<Vec<Pat>>, pub goal: Pat, pub rules: Vec<dm::Rule>,
+    /// a history on ONE reasoner: 0 repair-aware materialisation, 1 ordinary semi-naive materialisation, 2 query_with_repairs,
+    /// 3 / 4 add extra fact 0 / 1, 5 ordinary naive materialisation
+    #[serde(default)] pub history: Vec<u8>, #[serde(default)] pub extra: Vec<Fact> }
 pub struct C19;
 
 fn consistent(facts: &[Fact], constraints: &[Vec<Pat>]) -> bool { constraints.iter().all(|c| dm::match_premises(c, facts).is_empty()) }
@@ -214,7 +229,7 @@ fn answers_on(goal: &Pat, facts: &[Fact]) -> BTreeSet<Vec<(String, String)>> {
 impl Prop for C19 {
     type Case = RepCase;
     fn id(&self) -> &'static str { "C19" }
-    fn expected_counters(&self) -> Vec<&'static str> { vec!["probe.several_maximal_repairs", "fault.hash_seed_execution", "probe.answers_survive_conflict"] }
+    fn expected_counters(&self) -> Vec<&'static str> { vec!["probe.several_maximal_repairs", "fault.hash_seed_execution", "probe.answers_survive_conflict", "probe.queries_after_earlier_materialisations_on_the_same_reasoner"] }
     fn budget(&self, tier: Tier) -> Budget { match tier { Tier::Quick => Budget { runs: 2500, wall_s: 60, recheck: 30 }, Tier::Thorough => Budget { runs: 100_000, wall_s: 1000, recheck: 100 } } }
     fn hash_seed(&self, c: &RepCase) -> u64 { c.hash_seeds.first().copied().unwrap_or(0) }
     fn gen(&self, seed: u64, _i: u64, tier: Tier) -> RepCase {
@@ -244,7 +259,8 @@ impl Prop for C19 {
             else { (pos(&mut r, "?s"), if r.chance(1, 6) { "?p".to_string() } else { format!("p{}", r.usize(3)) }, pos(&mut r, "?o")) };
         let rules = if cfg.chance(1, 2) { vec![dm::Rule { prem: vec![("?x".into(), format!("p{}", r.usize(3)), "?y".into())], neg: vec![], conc: vec![("?y".into(), format!("p{}", r.usize(3)), "?x".into())], filt: vec![] }] } else { vec![] };
         let k = if tier == Tier::Quick { 8 } else { 32 };
-        RepCase { hash_seeds: (0..k).map(|_| hs.next()).collect(), facts, constraints, goal, rules }
+        let (history, extra) = if facts.len() <= 6 && cfg.chance(1, 3) { ((0..(3 + r.usize(5))).map(|_| *r.pick(&[0u8, 0, 1, 2, 2, 2, 3, 4, 5])).collect(), (0..2).map(|_| (node(&mut r), format!("p{}", r.usize(3)), node(&mut r))).collect()) } else { (vec![], vec![]) };
+        RepCase { hash_seeds: (0..k).map(|_| hs.next()).collect(), facts, constraints, goal, rules, history, extra }
     }
     fn exec(&self, c: &RepCase, ctx: &mut Ctx) -> Option<Violation> {
         if c.facts.len() > 12 || c.facts.is_empty() { return None; }
@@ -284,6 +300,45 @@ impl Prop for C19 {
             let after_v: Vec<Fact> = after.iter().cloned().collect();
             if !consistent(&after_v, &c.constraints) { return Some(Violation::new("materialisation-inconsistent", format!("hash seed {}: infer_new_facts_semi_naive_with_repairs ends with {} facts on which a constraint fires", hs, after_v.len()))); }
         }
+        // ---- a history of materialisations, additions and queries on one reasoner: every query is judged against the facts the
+        // store holds at that moment (read back through the index), every repair-aware materialisation must end consistent
+        if !c.history.is_empty() {
+            for &hs in c.hash_seeds.iter().take(2) {
+                let cr = c.clone();
+                let outcome: Result<u64, Violation> = kolibrie_verif_rt::hash::with_hash_seed(hs, move || {
+                    let c = &cr;
+                    let mut re = build(&c.facts, &c.rules);
+                    for cn in &c.constraints { let rule = to_rule(&dm::Rule { prem: cn.clone(), neg: vec![], conc: vec![], filt: vec![] }, &re); re.add_constraint(rule); }
+                    let mut queries = 0u64;
+                    for (i, op) in c.history.iter().enumerate() {
+                        match op {
+                            0 => { re.infer_new_facts_semi_naive_with_repairs(); let now: Vec<Fact> = dump(&re).into_iter().collect(); if !consistent(&now, &c.constraints) { return Err(Violation::new("materialisation-inconsistent", format!("history step {} (hash seed {}): repair-aware materialisation on a reasoner with an earlier history ends with {} facts on which a constraint fires", i, hs, now.len()))); } }
+                            1 => { re.infer_new_facts_semi_naive(); }
+                            5 => { re.infer_new_facts(); }
+                            3 | 4 => { if let Some(f) = c.extra.get((*op - 3) as usize) { re.add_abox_triple(&f.0, &f.1, &f.2); } }
+                            _ => {
+                                let now: Vec<Fact> = dump(&re).into_iter().collect();
+                                if now.len() > 13 { continue; }
+                                let reps = maximal_repairs(&now, &c.constraints);
+                                let mut expected: Option<BTreeSet<Vec<(String, String)>>> = None;
+                                for rp in &reps { let a = answers_on(&c.goal, rp); expected = Some(match expected { None => a, Some(e) => e.intersection(&a).cloned().collect() }); }
+                                let expected = expected.unwrap_or_default();
+                                let g = (term_of(&c.goal.0, &re), term_of(&c.goal.1, &re), term_of(&c.goal.2, &re));
+                                let res = re.query_with_repairs(&g);
+                                let d = re.dictionary.read().unwrap();
+                                let got: BTreeSet<Vec<(String, String)>> = res.iter().map(|b| { let mut v: Vec<(String, String)> = b.iter().map(|(k, id)| (k.clone(), d.decode(*id).unwrap_or("?").to_string())).collect(); v.sort(); v }).collect();
+                                drop(d);
+                                queries += 1;
+                                if got != expected { let missing: Vec<_> = expected.difference(&got).take(3).collect(); let extra: Vec<_> = got.difference(&expected).take(3).collect();
+                                    return Err(Violation::new(if !missing.is_empty() { "answer-missing" } else { "answer-not-in-every-repair" }, format!("history step {} (hash seed {}, ops so far {:?}): query_with_repairs over the {} facts the store holds now returned {} answers, the intersection over the {} maximal repairs has {}; missing {:?}, extra {:?}", i, hs, &c.history[..=i], now.len(), got.len(), reps.len(), expected.len(), missing, extra))); }
+                            }
+                        }
+                    }
+                    Ok(queries)
+                });
+                match outcome { Err(v) => return Some(v), Ok(q) => { ctx.count("probe.queries_after_earlier_materialisations_on_the_same_reasoner", q); } }
+            }
+        }
         if !conflict_free && !expected.is_empty() { ctx.hit("probe.answers_survive_conflict"); }
         if reps.len() >= 2 { ctx.nontrivial(kolibrie_verif_rt::log::fnv(&format!("{:?}{:?}{:?}", facts, c.constraints, c.goal))); }
         ctx.state(reps.len() as u64 * 1000 + expected.len() as u64);
@@ -295,6 +350,7 @@ impl Prop for C19 {
         for f in shrink_vec(&c.facts) { if !f.is_empty() { out.push(RepCase { facts: f, ..c.clone() }); } }
         for cs in shrink_vec(&c.constraints) { out.push(RepCase { constraints: cs, ..c.clone() }); }
         if !c.rules.is_empty() { out.push(RepCase { rules: vec![], ..c.clone() }); }
+        for h in shrink_vec(&c.history) { out.push(RepCase { history: h, ..c.clone() }); }
         out
     }
     fn rule(&self) -> String { "A case is one (fact set <= 12 facts, constraint set, goal pattern) executed under 8 (quick) or 32 (thorough) simulator-chosen hash seeds, each on its own OS thread; query_with_repairs is compared with the intersection of the goal's answers over all subset-maximal consistent subsets (enumeration of all subsets), and repair-aware materialisation must end consistent. Non-trivial = at least two maximal repairs; distinct = hash of (facts, constraints, goal).".into() }
@@ -326,7 +382,7 @@ fn longest_prefix<'a>(pred: &str, iris: &'a [String]) -> Option<&'a String> { ir
 impl Prop for C12 {
     type Case = SdsCase;
     fn id(&self) -> &'static str { "C12" }
-    fn expected_counters(&self) -> Vec<&'static str> { vec!["probe.rearrival_renews_alive_triple", "probe.renewal_raised_derived_expiry", "probe.derived_fact_lost_support", "probe.evaluation_after_total_expiry", "probe.listed_fact_also_derived_with_longer_support"] }
+    fn expected_counters(&self) -> Vec<&'static str> { vec!["probe.rearrival_renews_alive_triple", "probe.renewal_raised_derived_expiry", "probe.derived_fact_lost_support", "probe.evaluation_after_total_expiry", "probe.listed_fact_also_derived_with_longer_support", "probe.renewal_travelled_along_a_chain_of_5_or_more"] }
     fn budget(&self, tier: Tier) -> Budget { match tier { Tier::Quick => Budget { runs: 20_000, wall_s: 60, recheck: 30 }, Tier::Thorough => Budget { runs: 600_000, wall_s: 1000, recheck: 100 } } }
     fn hash_seed(&self, c: &SdsCase) -> u64 { c.hash_seed }
     fn gen(&self, seed: u64, _i: u64, _tier: Tier) -> SdsCase {
@@ -366,6 +422,27 @@ impl Prop for C12 {
             let mut arrivals = vec![];
             for _ in 0..r.usize(5) { let win = r.usize(nw); arrivals.push(Arrival { win, s: node(&mut r), p: r.pick(&locals).to_string(), o: node(&mut r), back: r.below(dt) }); }
             steps.push(SdsStep { dt, arrivals });
+        }
+        // one case in ten: a recursive rule walks a chain of 5-10 window items whose source is renewed again and again, so that an
+        // improved expiry has to travel through many tag-only fixpoint rounds (more rounds than there are rules)
+        if cfg.chance(1, 10) {
+            let l = 5 + r.usize(6);
+            windows[0].alpha = 30 + r.below(30); windows[1].alpha = 3 + r.below(6);
+            let out = outs[0].clone();
+            let mut rules = vec![
+                dm::Rule { prem: vec![("?x".into(), format!("{}q", windows[1].iri), "?v".into())], neg: vec![], conc: vec![("?x".into(), format!("{}r", out), "?x".into())], filt: vec![] },
+                dm::Rule { prem: vec![("?x".into(), format!("{}r", out), "?x".into()), ("?x".into(), format!("{}p", windows[0].iri), "?y".into())], neg: vec![], conc: vec![("?y".into(), format!("{}r", out), "?y".into())], filt: vec![] },
+            ];
+            if r.chance(1, 2) { rules.reverse(); }
+            let mut steps = vec![SdsStep { dt: 1, arrivals: (0..l).map(|i| Arrival { win: 0, s: format!("n{}", i), p: "p".into(), o: format!("n{}", i + 1), back: 0 }).chain(std::iter::once(Arrival { win: 1, s: "n0".into(), p: "q".into(), o: "n0".into(), back: 0 })).collect() }];
+            for _ in 0..(3 + r.usize(8)) {
+                let dt = 1 + r.below(windows[1].alpha + 2);
+                let mut arrivals = vec![];
+                if r.chance(3, 4) { arrivals.push(Arrival { win: 1, s: "n0".into(), p: "q".into(), o: "n0".into(), back: r.below(dt) }); }
+                if r.chance(1, 4) { let i = r.usize(l); arrivals.push(Arrival { win: 0, s: format!("n{}", i), p: "p".into(), o: format!("n{}", i + 1), back: 0 }); }
+                steps.push(SdsStep { dt, arrivals });
+            }
+            return SdsCase { hash_seed: Rng::sub(seed, "hash").next(), windows, static_iri, statics: vec![], outs, rules, steps, pool: *cfg.pick(&[1, 2, 4, 8, 16]), rayon_seed: Rng::sub(seed, "rayon").next() };
         }
         SdsCase { hash_seed: Rng::sub(seed, "hash").next(), windows, static_iri, statics, outs, rules, steps, pool: *cfg.pick(&[1, 2, 4, 8, 16]), rayon_seed: Rng::sub(seed, "rayon").next() }
     }
@@ -427,6 +504,7 @@ impl Prop for C12 {
             if nset != rset { rayon::sim_reset(); return Some(Violation::new("naive-differs", format!("step {} (t={}): naive_sds_plus yields {} facts, reference {}; e.g. {:?} / {:?}", si, t, nset.len(), rset.len(), nset.difference(&rset).next(), rset.difference(&nset).next()))); }
             // probes
             if refm.iter().any(|(f, e)| base.get(f).map(|be| e > be).unwrap_or(false)) { ctx.hit("probe.listed_fact_also_derived_with_longer_support"); }
+            if refm.iter().filter(|(f, e)| !base.contains_key(*f) && prev_ref.get(*f).map(|pe| *e > pe).unwrap_or(false)).count() >= 5 { ctx.hit("probe.renewal_travelled_along_a_chain_of_5_or_more"); }
             for (f, e) in &refm { if let Some(pe) = prev_ref.get(f) { if !base.contains_key(f) && e > pe { ctx.hit("probe.renewal_raised_derived_expiry"); } } }
             if prev_ref.keys().any(|f| !base.contains_key(f) && !refm.contains_key(f)) && !prev_ref.is_empty() { ctx.hit("probe.derived_fact_lost_support"); }
             if !prev_ref.is_empty() && base.values().all(|e| *e == u64::MAX) { ctx.hit("probe.evaluation_after_total_expiry"); }
